@@ -230,6 +230,12 @@ for _rm, _nm in ((0, "change"), (1, "remove")):
           symbolic="new value, which subscriber's send path fails (none/B/C)",
           assumes=["set-up steps succeed"],
           bounds="skeleton: B fetch-all; C fetch-all; A add 'a'=5; then one %s by %s; 3 peers, 1 element" % (_nm, "the owner A" if not _no else "another peer B"), **_scn_fetch)
+for _lv, _nm in ((0, "unfetch"), (1, "disconnect")):
+    O(id="C01.first_subscriber_leaves_by_" + _nm, props=["C01", "C05"], entry="harness_first_subscriber_leaves",
+      defines=["LEAVE_BY_DISCONNECT=1"] if _lv else [],
+      functions=["notify_fetchers", "remove_fetch_from_states", "remove_all_fetchers_from_peer", "add_fetch_to_state", "find_fetchers_for_element"],
+      symbolic="new state value", assumes=["set-up steps succeed"],
+      bounds="skeleton: A add 'a'; B fetch; C fetch; B leaves (%s); A change; A remove; A add again; 3 peers" % _nm, **_scn_fetch)
 for _uf, _nm in ((0, "subscribed"), (1, "unfetched")):
     O(id="C01.fetch_order_" + _nm, props=["C01", "C02"], entry="harness_fetch_order", reach=["unfetched"] if _uf else [],
       defines=["DO_UNFETCH=1"] if _uf else [],
@@ -269,6 +275,14 @@ for _re, _nm in ((0, "result"), (1, "error")):
     O(id="C03.reply_" + _nm, props=["C03", "C02", "C07", "C14"], entry="harness_reply", functions=_RF, defines=["REPLY_ERROR=1"] if _re else [],
       symbolic="set value, reply payload", assumes=["set-up add succeeds"],
       bounds="skeleton: O add 's'; A set; forged reply; foreign reply; O replies with %s; duplicate reply" % _nm, **_scn_route)
+O(id="C03.reply_caller_unreachable", props=["C03", "C11", "C07"], entry="harness_reply_caller_unreachable", functions=_RF,
+  symbolic="set value, reply payload", assumes=["set-up succeeds"],
+  bounds="skeleton: O add 's'; A set; C set; A's send path fails; O replies to A, then to C", **_scn_route)
+for _et, _rt, _nm in ((0, 0, "default"), (1, 0, "element"), (1, 7500, "request_larger_than_element"), (1, 250, "request_smaller_than_element"), (0, 30000, "request_only")):
+    O(id="C14.precedence_" + _nm, props=["C14", "C03"], entry="harness_deadline_precedence", functions=_RF + ["get_timeout_in_nsec", "init_element"],
+      defines=["ELEMENT_TIMEOUT=%d" % _et, "REQUEST_TIMEOUT_MS=%d" % _rt],
+      symbolic="set value (timeouts fixed per obligation: element %s, request %s)" % ("2 s" if _et else "none", ("%d ms" % _rt) if _rt else "none"),
+      assumes=["set-up succeeds"], bounds="skeleton: O add 's' [timeout]; A set [timeout]", **_scn_route)
 O(id="C14.timeout", props=["C14", "C03", "C07"], entry="harness_timeout", functions=_RF, symbolic="set value",
   assumes=["set-up succeeds"], bounds="skeleton: O add 's'; A set; timer expiry; late reply", **_scn_route)
 O(id="C03.owner_leaves", props=["C03", "C05", "C07"], entry="harness_owner_leaves", functions=_RF, symbolic="set value",
@@ -471,6 +485,7 @@ _also(["C09.read_exact_step", "C09.read_until_step", "C05.read_after_close", "C1
 _also(["C17.step_put_str_o2", "C17.step_get_str_o2", "C17.step_remove_str_o2"], ["C04", "C03"])   # path index / routing index are string tables
 _also(["C07.alloc_cap_"], ["C15"])
 _also(["C03.bystander_", "C03.route_fault_owner_send_fails"], ["C11"])
+_also(["C03.reply_caller_unreachable"], ["C03", "C11"])
 _also(["C12.send_frame"], ["C10"])
 _also(["C05.ws_header_eof"], ["C12"])
 
@@ -495,7 +510,7 @@ _also(["C15.alloc_failure_"], ["C06"])
 _scn_auth = dict(_scn, harness="harness/scn_auth.c", flags=_scn["flags"] + ["--no-bounds-check"],
                  unwindset=dict(_scn["unwindset"], **{"verif_crypt.0": 14, "verif_write.0": 9, "maybe_crash.0": 9, "clear_password.0": 14,
                                                       "get_groups.0": 4, "get_groups.1": 4, "is_in_groups.0": 4, "add_groups.0": 4, "fill_salt.0": 18,
-                                                      "get_salt_from_passwd.0": 6, "strcat.0": 24, "strchr.0": 24, "write_user_data.0": 6,
+                                                      "get_salt_from_passwd.0": 6, "verif_router_snprintf.0": 10, "verif_router_snprintf.1": 5, "strcat.0": 24, "strchr.0": 24, "write_user_data.0": 6,
                                                       "harness_crash_atomic.0": 4}),
                  stubs=_SCN_STUBS + ["crypt: injective model crypt(pw, salt) = \"H\" ++ pw", "ftruncate/lseek/write: 8-byte file model with symbolic error / short-write outcomes and a symbolic crash point",
                                      "cJSON_Print of the database: returns the fixed new content \"NEW\"", "cjet_get_random_bytes: fixed bytes",
@@ -542,7 +557,7 @@ PROPERTY_NOTES["C08"] = {
 }
 
 # ------------------------------------------------------------------------------------------------ C13 HTTP front door
-_scn_http = dict(_scn, harness="harness/scn_http.c",
+_scn_http = dict(_scn, harness="harness/scn_http.c", unwindset=dict(_scn["unwindset"], **{"br_writev.0": 14}),
                  units=_PROTO_UNITS + ["src/websocket_peer.c", "src/websocket.c", "src/compression.c", "src/utf8_checker.c", "src/linux/jet_endian.c", "src/base64.c", "src/http_server.c"],
                  stubs=_SCN_STUBS + ["http_parser_execute: contract stub (reports the URL at most once, parses the whole line or stops early); http_parser_parse_url: whole string is the path",
                                      "buffered reader of the connection: close/writev/read_until/set_error_handler record"])
@@ -566,9 +581,9 @@ _c19 = dict(harness="harness/c19_compress.c",
             stubs=["inflate: contract stub (consumes <= avail_in, produces <= avail_out, touches only those ranges, any return code)",
                    "memcpy/memmove: byte loops", "libc malloc/realloc/free: CBMC models (never fail here)"])
 O(id="C19.reassemble", props=["C19", "C06"], entry="harness_reassemble", reach=["second_fragment_larger_than_doubled_buffer"],
-  functions=["reassemble", "write_int_to_array", "read_int_from_array"], unwind=26,
-  unwindset={"verif_memcpy.0": 26, "write_int_to_array.0": 5}, defines=["FMAX=24"],
-  symbolic="lengths of two fragments (1..24 bytes each), fragment bytes", assumes=["allocations succeed"], bounds="two fragments of <= 24 bytes", **_c19)
+  functions=["reassemble", "write_int_to_array", "read_int_from_array"], unwind=6,
+  unwindset={"verif_memcpy.0": 18, "write_int_to_array.0": 5, "reassemble.0": 4}, defines=["FMAX=16"],
+  symbolic="lengths of two fragments (1..16 bytes each), fragment bytes", assumes=["allocations succeed"], bounds="two fragments of <= 16 bytes", **_c19)
 O(id="C19.inflate_buffers", props=["C19", "C06"], entry="harness_decompress", reach=["decompressed"], unwind=8,
   functions=["private_decompress"], unwindset={"verif_memcpy.0": 8, "private_decompress.0": 5},
   symbolic="message length 0..6, every amount inflate consumes/produces and every return code, context-takeover flag",
@@ -584,7 +599,7 @@ PROPERTY_NOTES["C19"] = {
 }
 
 # ------------------------------------------------------------------------------------------------ C06/C09 parser input contract
-O(id="C09.msg_bytes_only", props=["C09", "C06"], harness="harness/c09_parse_bounds.c", entry="harness_parse_bounds", unwind=8,
+O(id="C09.msg_bytes_only", props=["C09", "C06"], harness="harness/c09_parse_bounds.c", entry="harness_parse_bounds", unwind=10,
   functions=["parse_message"], symbolic="message length 1..6 and every message byte (no terminator guaranteed); message in an exact-size heap object",
   stubs=["cJSON_ParseWithOpts / cJSON_ParseWithLengthOpts: contract stubs reading what the documented contract lets the library read",
          "log_peer_err: empty; handlers: unreachable (the stub reports a parse error)"],
